@@ -558,6 +558,7 @@ func (C20) RunGo(line string) string {
 		sf, _ := os.ReadFile(bp + ".sync")
 		ap := dir + "/a.pmtiles"
 		os.WriteFile(ap, a, 0o644)
+		staleOutput(ap + ".tmp") // a left-over temp file of an earlier, interrupted sync
 		o := &c20Origin{files: map[string][]byte{"/b.pmtiles": b, "/b.pmtiles.sync": sf}, faultAt: -1}
 		if fault != "-" {
 			p := strings.Split(fault, ":")
